@@ -7,11 +7,11 @@ from harness.common import Stream
 from harness.props import C05
 
 PID = "C04"
-LEAN_MODULES = ["Astm.Proofs.C04", "Astm.State.C04"]
+LEAN_MODULES = ["Astm.Proofs.C04", "Astm.State.C04", "Astm.Surface.C04"]
 THEOREMS = [
     "Astm.C04.isolation", "Astm.C04.receiver_isolation", "Astm.C04.queue_is_merge_of_per_connection_deliveries",
     "Astm.C04.other_connections_untouched", "Astm.C04.footprint_per_instance", "Astm.C04.example_interleaving",
-    "Astm.C04.anchored_code_keeps_no_other_state",
+    "Astm.C04.anchored_code_keeps_no_other_state", "Astm.C04.anchored_code_keeps_its_signatures",
 ]
 RULE = ("k = 2..5 real ASTMProtocol instances sharing one queue and one virtual clock, their timed event sequences "
         "(ENQ, single and multi-frame messages, corrupted frames, EOT, silence past the timeout, disconnects) merged "
